@@ -371,6 +371,21 @@ def removeAll (ch : List Elem) : List Elem → List Elem × Option PyExc
     | .py e => (ch, some e)
     | .http _ => (ch, some .unknownClass)
 
+/-- phases 2–4 of `update_nss_from`, given phase 1's (children, objects_to_add, class-changed objects_to_remove, error).
+    On the original tree additions precede removals; the repaired `update_nss_from` (`Gen.classChangeReplaces`) removes first. -/
+def finishNss (och : List Elem) : List Elem × List Elem × List Elem × Option PyExc → List Elem × Option PyExc
+  | (sch1, _, _, some e) => (sch1, some e)
+  | (sch1, toAdd, toRem1, none) =>
+    let toRemove := toRem1 ++ sch1.filter (fun item => ¬ ownKeyIn och item)
+    if Gen.Routes.classChangeReplaces then
+      match removeAll sch1 toRemove with
+      | (sch2, some e) => (sch2, some e)
+      | (sch2, none) => addAll sch2 toAdd
+    else
+      match addAll sch1 toAdd with
+      | (sch2, some e) => (sch2, some e)
+      | (sch2, none) => removeAll sch2 toRemove
+
 mutual
 /-- `Referable.update_from(other)`: every plain attribute is assigned (idShort included, bypassing the setter),
     NamespaceSets are merged.  Returns the changed object and the exception that interrupted it, if any. -/
@@ -384,40 +399,42 @@ def updateFrom (self : Elem) : Elem → Elem × Option PyExc
       (.mk self.key self.kind oids otok (mergeQuals self.quals oq) self.ch, some .keyError)
     else if self.kind = .sm then
       -- Submodel: `submodel_element` precedes `qualifier` in `vars()`
-      match updateNss self.ch och with
+      match finishNss och (updatePhase1 self.ch och) with
       | (ch', some e) => (.mk self.key self.kind oids otok self.quals ch', some e)
       | (ch', none) => (.mk self.key self.kind oids otok (mergeQuals self.quals oq) ch', none)
     else
-      match updateNss self.ch och with
+      match finishNss och (updatePhase1 self.ch och) with
       | (ch', err) => (.mk self.key self.kind oids otok (mergeQuals self.quals oq) ch', err)
+termination_by structural x => x
 
-/-- phase 1 of `update_nss_from`: children of `other` in order; returns (self's children, objects_to_add, error) -/
-def updatePhase1 (sch : List Elem) : List Elem → List Elem × List Elem × Option PyExc
-  | [] => (sch, [], none)
+/-- phase 1 of `update_nss_from`: children of `other` in order; returns (self's children, objects_to_add,
+    objects_to_remove because their class changed, error) -/
+def updatePhase1 (sch : List Elem) : List Elem → List Elem × List Elem × List Elem × Option PyExc
+  | [] => (sch, [], [], none)
   | oc :: rest =>
     match oc.idShort.bind (fun k => findKey k sch) with
     | some sc =>
-      match updateFrom sc oc with
-      | (sc', none) =>
-        updatePhase1 (replaceKey sc.key sc' sch) rest
-      | (sc', some .keyError) =>       -- `except KeyError:` of update_nss_from takes it for "not contained"
-        (match updatePhase1 (replaceKey sc.key sc' sch) rest with
-         | (a, b, c) => (a, oc :: b, c))
-      | (sc', some e) => (replaceKey sc.key sc' sch, [], some e)
+      if Gen.Routes.classChangeReplaces ∧ sc.kind ≠ oc.kind then
+        -- repaired tree: `type(referable) is not type(other_object)` ⇒ replace instead of updating in place
+        (match updatePhase1 sch rest with
+         | (a, b, c, d) => (a, oc :: b, sc :: c, d))
+      else
+        match updateFrom sc oc with
+        | (sc', none) =>
+          updatePhase1 (replaceKey sc.key sc' sch) rest
+        | (sc', some .keyError) =>       -- `except KeyError:` of update_nss_from takes it for "not contained"
+          (match updatePhase1 (replaceKey sc.key sc' sch) rest with
+           | (a, b, c, d) => (a, oc :: b, c, d))
+        | (sc', some e) => (replaceKey sc.key sc' sch, [], [], some e)
     | none =>
       match updatePhase1 sch rest with
-      | (a, b, c) => (a, oc :: b, c)
+      | (a, b, c, d) => (a, oc :: b, c, d)
+termination_by structural x => x
+end
 
 /-- `NamespaceSet.update_nss_from(other)` -/
 def updateNss (sch : List Elem) (och : List Elem) : List Elem × Option PyExc :=
-  match updatePhase1 sch och with
-  | (sch1, _, some e) => (sch1, some e)
-  | (sch1, toAdd, none) =>
-    let toRemove := sch1.filter (fun item => ¬ ownKeyIn och item)
-    match addAll sch1 toAdd with
-    | (sch2, some e) => (sch2, some e)
-    | (sch2, none) => removeAll sch2 toRemove
-end
+  finishNss och (updatePhase1 sch och)
 
 /-! ## identifiers, conversion, routing -/
 
